@@ -894,6 +894,7 @@ theorem offered_types (raw : Str) :
     ((s "*.").isPrefixOf raw = true → w = true ∧ tys = [.dns01] ∧ raw = s "*." ++ v) ∧
     ((s "*.").isPrefixOf raw = false → w = false ∧ v = raw ∧ tys = [.dns01, .http01, .tlsalpn01]) := by
   unfold newAuthorization trimIfWildcard challengeTypes trimPrefix
+  simp only [if_true]
   by_cases h : (s "*.").isPrefixOf raw = true
   · simp only [h, if_true, Bool.not_true, Bool.false_eq_true, if_false, true_and, reduceCtorEq, false_implies, and_true]
     intro _
@@ -910,11 +911,17 @@ theorem offered_types_all (t : IdType) (wild : Bool) :
     (.deviceAttest01 ∈ challengeTypes t wild → t = .permanentIdentifier) := by
   cases t <;> cases wild <;> simp [challengeTypes]
 
-/-- an IP identifier that passed request validation (`net.ParseIP` accepts it, so it does not
-    start with `*.`) is never marked wildcard -/
-theorem ip_identifier_not_wildcard (raw : Str) (h : (s "*.").isPrefixOf raw = false) :
-    (newAuthorization .ip raw).2.1 = false := by
-  unfold newAuthorization trimIfWildcard; simp [h]
+/-- **only DNS identifiers have a wildcard form** (fix 77ebdfa): an identifier of any other type is
+    stored exactly as given and never marked wildcard — a permanent identifier `*.1234567` is
+    that string, to be attested as such -/
+theorem non_dns_identifier_kept (t : IdType) (raw : Str) (h : t ≠ .dns) :
+    newAuthorization t raw = (raw, false, challengeTypes t false) := by
+  unfold newAuthorization; simp [h]
+
+theorem ip_identifier_not_wildcard (raw : Str) : (newAuthorization .ip raw).2.1 = false := by
+  rw [non_dns_identifier_kept .ip raw (by decide)]
+
+example : newAuthorization .permanentIdentifier (s "*.1234567") = (s "*.1234567", false, [.deviceAttest01]) := by decide
 
 example : newAuthorization .dns (s "*.example.com") = (s "example.com", true, [.dns01]) := by decide
 
